@@ -807,7 +807,19 @@ func (ev *SpecEnv) call(n *Node) Val {
 				}
 			}
 		}
+		if n.Args[0].Kind == "sel" && n.Args[0].Args[0].Kind == "ident" {
+			if _, isVar := ev.vars[n.Args[0].Args[0].Name]; !isVar {
+				if p := ex.pkgByName(n.Args[0].Args[0].Name); p != nil {
+					if obj, ok := p.Scope().Lookup(n.Args[0].Name).(*types.Var); ok {
+						return Val{T: ex.globalRef(obj), S: sortRef, Ty: types.NewPointer(obj.Type())}
+					}
+				}
+			}
+		}
 		x := ev.eval(n.Args[0])
+		if x.S != sortRef {
+			specFail("addr() of a non-reference %s", x.S)
+		}
 		return Val{T: sx("addr_of", x.T), S: bvSort(64), Ty: types.Typ[types.Uintptr]}
 	case "mathint":
 		x := ev.eval(n.Args[0])
